@@ -331,12 +331,36 @@ Definition list_bytes_eqb (a b : list bytes) : bool :=
 Definition values_of (n : bytes) (attrs : list (bytes * bytes)) : list bytes :=
   map snd (filter (fun a => bytes_eqb (fst a) n) attrs).
 
+(* the SANs attribute (joinNames): items separated by ", "; an item between double quotes may contain
+   anything, a backslash taking the next octet literally; an unquoted item does not begin with a quote.
+   States: 0 at the start of an item, 1 inside an unquoted item, 2 inside quotes, 3 after the closing quote *)
+Fixpoint spec_names_go (st : N) (cur : bytes) (l : bytes) : option (list bytes) :=
+  match l with
+  | [] => if st =? 2 then None else Some [rev cur]
+  | c :: r =>
+      if st =? 2 then
+        (if c =? 92 then match r with d :: r' => spec_names_go 2 (d :: cur) r' | [] => None end
+         else if c =? 34 then spec_names_go 3 cur r
+         else spec_names_go 2 (c :: cur) r)
+      else if (c =? 44) && match r with d :: _ => d =? 32 | [] => false end then
+        match r with
+        | _ :: r' => match spec_names_go 0 [] r' with Some ts => Some (rev cur :: ts) | None => None end
+        | [] => None
+        end
+      else if st =? 3 then None
+      else if (st =? 0) && (c =? 34) then spec_names_go 2 cur r
+      else spec_names_go 1 (c :: cur) r
+  end.
+Definition spec_names (v : bytes) : option (list bytes) :=
+  match v with [] => Some [] | _ => spec_names_go 0 [] v end.
+
 (* one expectation: what must be printed under an attribute name *)
 Inductive expect :=
 | EExact (v : bytes)                  (* present exactly once with this value *)
 | EAbsent                             (* not present *)
-| EList (ordered : bool) (l : list bytes).   (* the listed items, no more, no fewer; when there are
+| EList (ordered : bool) (l : list bytes)    (* the listed items, no more, no fewer; when there are
                                                 none the attribute is absent or empty *)
+| ENames (l : list bytes).                   (* a non-empty list of names in any order, items quoted where needed *)
 
 Definition check_expect (attrs : list (bytes * bytes)) (name : bytes) (e : expect) : list bytes :=
   let vs := values_of name attrs in
@@ -361,6 +385,17 @@ Definition check_expect (attrs : list (bytes * bytes)) (name : bytes) (e : expec
           else [name ++ bs ": shown '" ++ x ++ bs "' but encoded '" ++ join [44; 32] l ++ bs "'"]
       | [], _ => [name ++ bs ": encoded '" ++ join [44; 32] l ++ bs "' but not shown"]
       | _, _ => [name ++ bs ": shown more than once"]
+      end
+  | ENames l =>
+      match vs with
+      | [x] =>
+          match spec_names x with
+          | Some ts => if perm_eqb l ts then []
+                       else [name ++ bs ": shown '" ++ x ++ bs "' but encoded '" ++ join [44; 32] l ++ bs "'"]
+          | None => [name ++ bs ": '" ++ x ++ bs "' is not a list of names"]
+          end
+      | [] => [name ++ bs ": encoded '" ++ join [44; 32] l ++ bs "' but not shown"]
+      | _ => [name ++ bs ": shown more than once"]
       end
   end.
 
@@ -389,7 +424,7 @@ Definition spec_expectations (c : enc_cert) : list (bytes * expect) := [
   (bs "Extended key usage", EList false (match e_ekus c with Some l => map spec_eku_text l | None => [] end));
   (bs "Max path length", match e_basic c with Some (true, Some n) => EExact (dec_of_Z n) | _ => EAbsent end);
   (bs "SANs", match e_sans c with
-              | Some l => match flat_map spec_san_text l with [] => EAbsent | ts => EList false ts end
+              | Some l => match flat_map spec_san_text l with [] => EAbsent | ts => ENames ts end
               | None => EAbsent end);
   (bs "Signature algorithm",
      match e_sig c with
